@@ -187,6 +187,13 @@ func (column *ColumnData) readData(reader io.Reader, format base.BoundValueForma
 		column.data = nil
 		return nil
 	}
+	// the value is a part of the message: it can't be longer than what is left of the message
+	if int32(length) < 0 {
+		return ErrInvalidPacketLength
+	}
+	if sized, ok := reader.(interface{ Len() int }); ok && length > sized.Len() {
+		return ErrInvalidPacketLength
+	}
 	data := make([]byte, length)
 
 	// first 4 bytes is packet length and then 2 bytes of column count
